@@ -181,6 +181,13 @@ def run(prog: Program) -> Results:
                     par = [p for p in ast.walk(g.node) if isinstance(p, ast.BoolOp) and any(x is n for x in ast.walk(p))]
                     if any(f"not isinstance({nm}, Identifier)" in norm(p) for p in par):
                         continue
+                    # … or inside a conditional expression / and-or chain that excludes Identifier for this operand
+                    from sa.cfg import atoms as _atoms
+                    from sa.util import expression_facts, parent_map as _pmap
+                    if any(isinstance(a_, ast.Call) and callee(a_) == "isinstance" and len(a_.args) == 2 and norm(a_.args[0]) == nm
+                           and "Identifier" in norm(a_.args[1]) and tv_ is False
+                           for tst_, tr_ in expression_facts(_pmap(g.node), n) for a_, tv_ in _atoms(tst_, tr_)):
+                        continue
                     # … or by the false edge of an isinstance test (`if isinstance(x, Identifier): … elif x.value == …`)
                     gcfg_ = CFG(g.node)
                     not_ident = edges_establishing(gcfg_, lambda a, t, _nm=nm: isinstance(a, ast.Call) and callee(a) == "isinstance"
